@@ -40,8 +40,13 @@ def run(ctx):
     R.clause('b', 'the decision is a deterministic function of its four arguments (effect-free closure)')
     R.clause('c', 'the signer only tries indices in [0,m)')
 
+    # (callers folded into the exported / named function they are a private helper of)
+    from engine import who_calls
+    allowed_, offenders_ = who_calls(ws, [LOT], [(SIGNER + '*', 'signer lottery loop'), (VERIF + '*', 'verifier index check')])
+    offenders_ = [(f_, l_) for f_, l_ in offenders_ if f_.unit.tag == 'lib']
+    both_roles = bool(ctx.closure_sites(SIGNER, [LOT], depth=3)) and bool(ctx.closure_sites(VERIF, [LOT], depth=3))
     callers = sorted({f.root().name for f, _ in ws.callers_of(LOT) if f.unit.tag == 'lib'})
-    if callers == sorted([SIGNER, VERIF]):
+    if not offenders_ and both_roles:
         R.ok('a', 'R3', 'is_lottery_won has exactly two callers: signer lottery loop and verifier index check', '')
     else:
         R.violation('a', 'R3', 'is_lottery_won has exactly two callers: signer lottery loop and verifier index check', 'lottery:callers', str(callers), None)
@@ -124,6 +129,16 @@ def run(ctx):
                         ok = True
         sites = [c for c in body.calls() if any(glob_match(LOT, n) for n in c.names())]
         inloop = all(loop_body_entry(body, c.bb) is not None for c in sites) and bool(sites)
+        if not sites:
+            # `(0..m).filter(|&index| .. is_lottery_won(..))`: the lottery is evaluated in a closure applied to the elements of the range
+            for g in sf.family():
+                if g is sf:
+                    continue
+                for c in g.body.calls():
+                    if any(glob_match(DENSE, n) for n in c.names()) and len(c.args) > 2 and \
+                            has(fn_origins(g, c.args[2], True), 'adt:std::ops::range::Range::Range') and \
+                            has(fn_origins(g, c.args[2], True), 'pty:ConcatenationProofSigner.parameters.m'):
+                        inloop = True
         if ok and inloop:
             R.ok('c', 'R6', 'check_lottery iterates the half-open range 0..parameters.m', '', sf.loc())
         else:
@@ -131,7 +146,7 @@ def run(ctx):
         # the index tried is the index drawn and the index reported
         for c in sites:
             pass
-        ctx.arg_origin('c', sf, DENSE, 2, require=['call:*Iterator*::next'], desc='(index) <- loop variable')
+        ctx.arg_origin('c', sf, DENSE, 2, require_any=['call:*Iterator*::next', 'adt:std::ops::range::Range::Range'], desc='(index) <- loop variable')
 
 
 # ---- (d) added after seed C08-2: lossless transport of the integer inputs
